@@ -22,7 +22,7 @@ RULE = (
 )
 REQUIRED = ["automorphism_count_checked", "orbits_checked", "nontrivial_groups", "disconnected_graphs",
             "autoest_coarsening_checked", "autoest_strictly_coarser", "dedup_contract_evals", "dedup_dropped_something",
-            "pruning_differential_runs", "pruning_removed_matches", "pruning_symmetry_reference_checked", "graphs_with_omitted_default_attributes"]
+            "pruning_differential_runs", "pruning_removed_matches", "pruning_symmetry_reference_checked", "graphs_with_omitted_default_attributes", "anchor_read_first_checked"]
 ASSUMPTIONS = [
     "Automorphism defaults: missing element '*', charge 0, order 1.0 (the class's documented defaults)",
     "AutoEst compared against the automorphism group of the whole graph (component swaps included: WL colours are invariant under them)",
@@ -71,6 +71,12 @@ def check_graph(ctx, G, tag, key, with_est=True):
         au = B.automorphisms(c, node_ok, edge_ok)
         want_n *= len(au)
         want_orb |= B.orbits_from(list(c.nodes), au)
+    if len(comps) > 1:
+        # a fresh analysis object whose anchor is the first thing read
+        anc0 = Automorphism(G).anchor_component
+        ctx.count("anchor_read_first_checked")
+        if anc0 is None or frozenset(anc0) not in {frozenset(c.nodes) for c in comps} or len(anc0) != max(len(c) for c in comps):
+            ctx.violation("anchor", wit, f"anchor_component read first on a fresh object is {anc0}: not a largest component")
     A = Automorphism(G)
     ctx.count("automorphism_count_checked")
     if len(comps) > 1:
